@@ -628,8 +628,13 @@ func (p *CodeBuilder) CallInlineClosureStart(sig *types.Signature, arity int, el
 	if sig.Variadic() && !ellipsis {
 		p.SliceLit(getParam(sig, n1).Type().(*types.Slice), arity-n1)
 	}
+	start := len(p.current.stmts)
 	for i := n1; i >= 0; i-- {
 		p.emitVar(pkg, closure, getParam(sig, i), true)
+	}
+	// the arguments are popped last-to-first; keep their evaluation in source (left-to-right) order
+	for i, j := start, len(p.current.stmts)-1; i < j; i, j = i+1, j-1 {
+		p.current.stmts[i], p.current.stmts[j] = p.current.stmts[j], p.current.stmts[i]
 	}
 	return p
 }
